@@ -221,6 +221,12 @@ func (p *IdP) idToken(spec *CodeSpec) string {
 	case "expired":
 		claims["exp"] = now.Add(-2 * time.Hour).Unix()
 		claims["iat"] = now.Add(-3 * time.Hour).Unix()
+	case "expired_20s":
+		claims["exp"] = now.Add(-20 * time.Second).Unix()
+		claims["iat"] = now.Add(-1 * time.Hour).Unix()
+	case "expired_4m":
+		claims["exp"] = now.Add(-4 * time.Minute).Unix()
+		claims["iat"] = now.Add(-1 * time.Hour).Unix()
 	case "no_username":
 		delete(claims, claimName)
 	case "nonstring_username":
